@@ -15,7 +15,13 @@ func main() {
 		if src == "" {
 			continue
 		}
-		o := host.Run("return "+src, host.Opts{CPU: 10000000})
+		o := host.Run("return "+src, host.Opts{CPU: cpuLimit()})
 		fmt.Printf("%-50s => %s cpu=%d\n", src, o.String(), o.UsedCPU)
 	}
+}
+
+func cpuLimit() uint64 {
+	var k uint64 = 10000000
+	fmt.Sscan(os.Getenv("PROBE_CPU"), &k)
+	return k
 }
